@@ -280,6 +280,13 @@ def strip_private(frames):
     return out
 
 
+def mask_addresses(text):
+    """The one known process-dependent part of an exception text: the repr of a memoryview the hpack library puts into its
+    message (finding decode_error_text_embeds_address).  Nothing else is masked."""
+    import re
+    return re.sub(r'<memory at 0x[0-9a-fA-F]+>', '<memory at ADDR>', text)
+
+
 class Session:
     """One behaviour: one endpoint with a harness-driven peer, or a client/server pair."""
 
@@ -293,6 +300,7 @@ class Session:
         # pair mode: bytes in flight towards each side, one entry per logical frame
         self.chan = {r: [] for r in self.eps}
         self.last_raw = {}
+        self.text = ('', '')
         # C21: when the behaviour's meta carries chunk_seed, every receive_data() input is fed in random pieces
         self.chunk_rng = None
         if meta.get('chunk_seed') is not None:
@@ -303,6 +311,7 @@ class Session:
         # C28: digest of every byte the endpoints emitted, in order
         import hashlib
         self.digest = hashlib.sha256()
+        self.digest_masked = hashlib.sha256()      # the same with object addresses in exception texts masked (finding decode_error_text_embeds_address)
 
     def other(self, x):
         return 's' if x == 'c' else 'c'
@@ -319,12 +328,19 @@ class Session:
             self._enqueue(self.other(x), data, frames, ep)
         self.last_raw[x] = (data, ep.obs.raw)
         self.digest.update(x.encode() + len(data).to_bytes(4, 'big') + data)
+        self.digest_masked.update(x.encode() + len(data).to_bytes(4, 'big') + data)
         if self.want_sizes:
             for f in frames:
                 if '_sizes' in f:
                     f['sizes'] = f['_sizes']
         self.last_block_lens = [f['_bl'] for f in frames if '_bl' in f]
         o = {'r': res, 'o': strip_private(self._public(frames)), 'e': evs}
+        # C28: the text of the exception and of the events as the application would print them (not predicted by the model:
+        # compared between two interpreters with different hash seeds only)
+        import hashlib as _h
+        o['x'] = {'exc': self.text[0], 'ev': _h.sha1(self.text[1].encode('utf-8', 'replace')).hexdigest()[:12] if self.text[1] else ''}
+        self.digest.update(self.text[0].encode('utf-8', 'replace') + self.text[1].encode('utf-8', 'replace'))
+        self.digest_masked.update(mask_addresses(self.text[0]).encode('utf-8', 'replace') + self.text[1].encode('utf-8', 'replace'))
         if with_q:
             o['q'] = ep.queries(self.qsids)
             o['z'] = ep.zstate()
@@ -374,6 +390,7 @@ class Session:
         x = s['x']
         ep = self.eps[x]
         self.want_sizes = a == 'call' and bool(s['c'].get('sz'))
+        self.text = ('', '')
         if a == 'call':
             try:
                 ret = ep.call(s['c'])
@@ -382,6 +399,7 @@ class Session:
                     res['v'] = ret
             except BaseException as e:
                 res = absn.exc_rec(e)
+                self.text = (str(e), '')
                 if s['c']['op'] in ('oin', 'oout', 'next'):
                     res['v'] = -1
             if s['c']['op'] == 'upg' and self.pair and ep.upgrade_header is not None:
@@ -410,9 +428,14 @@ class Session:
                 evs += ep.conn.receive_data(piece)
             res = absn.exc_rec(None)
             aevs = absn.events(evs)
+            try:
+                self.text = ('', repr(evs))
+            except Exception as e:            # an event whose repr raises (outside the listed properties)
+                self.text = ('', 'repr raised %s' % type(e).__name__)
         except BaseException as e:
             res = absn.exc_rec(e)
             aevs = []
+            self.text = (str(e), '')
         return self._finish(x, res, aevs)
 
     def _pieces(self, data):
